@@ -246,6 +246,11 @@ func DecShareBatch(
 // VerifyDecShare checks that the decrypted share sG satisfies
 // log_{G}(X) == log_{sG}(sX). Note that X = xG and sX = s(xG) = x(sG).
 func VerifyDecShare(suite Suite, G, X kyber.Point, encShare *PubVerShare, decShare *PubVerShare) error {
+	// The proof below only covers the share's value: the index it is
+	// interpolated at must be the one of the encrypted share it decrypts.
+	if decShare.S.I != encShare.S.I {
+		return fmt.Errorf("didn't verify: %w", ErrDecVerification)
+	}
 	// Compute challenge for the decShare
 	h := suite.Hash()
 	var err error
